@@ -91,6 +91,24 @@ func (r *request) isMultipart(mediaType string) bool {
 func (r *request) BuildHTTP(mediaType, basePath string, producers map[string]runtime.Producer, registry strfmt.Registry) (*http.Request, error) {
 	return r.buildHTTP(mediaType, basePath, producers, registry, nil)
 }
+
+// fillBuffer reads from r until buf is full or r ends. Only io.EOF means that r has ended:
+// any other error, io.ErrUnexpectedEOF included, is r's own failure and is returned.
+func fillBuffer(r io.Reader, buf []byte) (int, error) {
+	var size int
+	for size < len(buf) {
+		n, err := r.Read(buf[size:])
+		size += n
+		if err == io.EOF {
+			return size, nil
+		}
+		if err != nil {
+			return size, err
+		}
+	}
+	return size, nil
+}
+
 func escapeQuotes(s string) string {
 	return strings.NewReplacer("\\", "\\\\", `"`, "\\\"").Replace(s)
 }
@@ -193,8 +211,8 @@ func (r *request) buildHTTP(mediaType, basePath string, producers map[string]run
 						// Need to read the data so that we can detect the content type
 						const contentTypeBufferSize = 512
 						buf := make([]byte, contentTypeBufferSize)
-						size, err := io.ReadFull(fi, buf)
-						if err != nil && err != io.EOF && err != io.ErrUnexpectedEOF {
+						size, err := fillBuffer(fi, buf)
+						if err != nil {
 							logClose(err, pw)
 							return
 						}
